@@ -290,6 +290,8 @@ def get_double(value: FloatArgType, xsd_version: str | None = None) -> float:
                 return math.nan  # for NaN use the predefined instance to keep identity
         elif Patterns.numeric_literal.match(value) is None:
             raise ValueError(f'invalid value {value!r} for xs:double/xs:float')
+    elif isinstance(value, int):
+        return float(str(int(value)))  # as through xs:string: INF beyond the range, no OverflowError
     elif math.isnan(value):
         return math.nan
 
